@@ -39,6 +39,8 @@ pub enum Step {
     Yield { #[serde(default)] n: usize },
     Settle {},
     Drain { c: usize },
+    /// Follows next_page_token from the first page until it is empty.
+    Walk { c: usize, kind: String, arg: String, size: i32 },
     Mark { name: String },
 }
 
@@ -54,9 +56,34 @@ pub async fn run_scenario(scenario: &Scenario) -> Vec<Value> {
 
     for step in &scenario.steps {
         match step.clone() {
-            Step::Call { c, call } => exec(Arc::clone(&world), c, call).await,
+            Step::Call { c, call } => {
+                exec(Arc::clone(&world), c, call).await;
+            }
+            Step::Walk { c, kind, arg, size } => {
+                let mut token = String::new();
+                for _ in 0..64 {
+                    let call = match kind.as_str() {
+                        "topics" => CallSpec::ListTopics { project: arg.clone(), size, token: token.clone() },
+                        "subs" => CallSpec::ListSubs { project: arg.clone(), size, token: token.clone() },
+                        _ => CallSpec::ListTopicSubs { topic: arg.clone(), size, token: token.clone() },
+                    };
+                    let next = match exec(Arc::clone(&world), c, call).await {
+                        Some((code, body)) if code == "OK" => {
+                            body.get("next").and_then(|v| v.as_str()).unwrap_or("").to_string()
+                        }
+                        _ => String::new(),
+                    };
+                    if next.is_empty() {
+                        break;
+                    }
+                    token = next;
+                }
+            }
             Step::Start { h, c, call } => {
-                let handle = tokio::spawn(exec(Arc::clone(&world), c, call));
+                let world2 = Arc::clone(&world);
+                let handle = tokio::spawn(async move {
+                    exec(world2, c, call).await;
+                });
                 calls.insert(h, (c, handle));
             }
             Step::Abort { h } => {
